@@ -149,6 +149,45 @@ pub fn near_limits(r: &mut Rng, f: &mut dyn FnMut(&str)) {
             f(&m);
         }
     }
+    // systematic sweep of the MAX_LENGTH boundary: a 1/2/3/4-byte character or a newline starting
+    // at every byte position 246..=260 of an over-long (and of a just-fitting) input, and a
+    // newline directly followed by a multi-byte character straddling the limit
+    for ch in ["b", "é", "中", "😀", "\n", "\r\n", "\t"] {
+        for start in 246..=260usize {
+            for tail in ["", "t", "tail-tail-tail"] {
+                let mut s = String::from("1.2.3-");
+                while s.len() < start {
+                    s.push('a');
+                }
+                s.push_str(ch);
+                s.push_str(tail);
+                f(&s);
+            }
+        }
+    }
+    for nl in 248..=256usize {
+        for ch in ["é", "中", "😀", "ééééé", "😀😀"] {
+            let mut s = String::from("1.2.3-");
+            while s.len() < nl {
+                s.push('a');
+            }
+            s.push('\n');
+            s.push_str(ch);
+            s.push_str("zz");
+            f(&s);
+        }
+    }
+    // zero-padded numeric identifiers of every length around the width of u64 (19/20 digits)
+    for pad in [1usize, 2, 3, 8, 15, 16, 17, 18, 19, 20, 21, 22, 23, 30, 60] {
+        for val in ["0", "7", "42", "18446744073709551615", "18446744073709551616", "9007199254740993"] {
+            let id = format!("{}{}", "0".repeat(pad), val);
+            f(&format!("1.2.3-{}", id));
+            f(&format!("1.2.3+{}", id));
+            f(&format!("1.2.3-alpha.{}", id));
+            f(&format!("1.2.3-{}.beta+{}", id, id));
+            f(&format!("v1.2.3-rc.{}.x", id));
+        }
+    }
     for n in ["900719925474098", "900719925474099", "900719925474100", "9007199254740991", "18446744073709551615", "18446744073709551616", "99999999999999999999", "10000000000000000000000000"] {
         f(&format!("{}.2.3", n));
         f(&format!("1.{}.3", n));
